@@ -37,6 +37,8 @@ structure RibSt where
   spec : Map EKey Payload := []
   implEnts : Map EKey Payload := []
   implPend : List Nat := []
+  /-- ids the implementation answered FAILED (C01 monitor: they leave no trace) -/
+  failedIds : List Nat := []
   implRefsOk : Bool := true
   partialFlush : Bool := false
   /-- the trace does not list the operations (concurrent runs): monitors that need them are off -/
@@ -100,7 +102,17 @@ def ackFold (st : RibSt) (okIds : List Nat) : RibSt :=
         then st.monfail "c01" s!"REPLACE {id} acknowledged for a key that is not installed" else st
       { st with spec := Spec.applyAck st.spec (.prog op) }) st
 
+/-- C01 monitor: "operations answered FAILED leave no trace" — an id that was answered FAILED
+is never acknowledged as programmed later (ids are distinct within a generated history) -/
+def failedTrace (st : RibSt) (oks fails : List Nat) : RibSt :=
+  let st := if st.blind then st else
+    match oks.find? (fun id => st.failedIds.contains id) with
+    | some id => st.monfail "c01" s!"operation {id} was answered FAILED and is acknowledged as programmed later: a failed operation left a trace"
+    | none => st
+  { st with failedIds := fails.eraseDups ++ st.failedIds }
+
 def handleAdd (st : RibSt) (op : Op) (oks fails : List Nat) (fatal : Bool) : RibSt :=
+  let st := failedTrace st oks fails
   let st := { st with ops := st.ops.insert op.id op }
   let st := st.covr ("add." ++ tryName (st.model.classify op))
   let st := ackFold st oks
@@ -123,6 +135,7 @@ def handleAdd (st : RibSt) (op : Op) (oks fails : List Nat) (fatal : Bool) : Rib
     else st
 
 def handleDel (st : RibSt) (op : Op) (oks fails : List Nat) (fatal : Bool) : RibSt :=
+  let st := failedTrace st oks fails
   let st := { st with ops := st.ops.insert op.id op }
   let st := st.covr ("del." ++ dtryName (st.model.classifyDel op))
   let st := ackFold st oks
@@ -219,6 +232,11 @@ def structBad (op : Op) : Bool :=
 
 def handleObsPend (st : RibSt) (ids : List Nat) : RibSt :=
   let st := { st with implPend := ids }
+  -- C01 monitor: an operation answered FAILED is not kept by the server
+  let st := if st.blind then st else
+    match ids.find? (fun id => st.failedIds.contains id) with
+    | some id => st.monfail "c01" s!"operation {id} was answered FAILED and is still held by the server: a failed operation left a trace"
+    | none => st
   -- C12 monitor: an operation that can never be valid must not be held
   let st := ids.foldl (fun st id =>
     match st.ops.get? id with
